@@ -817,6 +817,21 @@ fn driver(tier: &str) -> i32 {
             eprintln!("HARNESS-ERROR: panic inside shuttle's own code ({}); this is a limit of the simulation, not a reported violation; the sequential engine still runs.", f.panic.lines().next().unwrap_or(""));
             return 3;
         }
+        if (oracle_of(&f.panic) == "deadlock" || oracle_of(&f.panic) == "livelock")
+            && f.scenario.threads.iter().flatten().any(|r| matches!(r, Req::Crash))
+            && std::env::var("VERIF_C17_NO_CRASH").is_err()
+        {
+            // Same gap of the model, other symptom: the provoked client crash unwinds through a held shuttle
+            // Mutex, which shuttle never releases (under std the lock is poisoned and handed on), so every
+            // other task blocks on it and shuttle reports a deadlock. A deadlock in a scenario *with* a
+            // client crash is therefore not a verdict: the batch is run again without that fault - a
+            // deadlock that does not need the crash shows up again there and is reported - and the
+            // crash-dependent ones (a waiter for a generation that died) are the business of the sequential
+            // engine, whose watchdog reports a request that never returns against the real std Mutex.
+            eprintln!("NOTE: C17 ({flavour}): deadlock in a scenario with a provoked client crash ({}); shuttle does not release a Mutex held by a panicking task, so this is not a verdict: re-running the batch without the client-crash fault (the sequential engine injects it against the real std Mutex and has a hang watchdog)", f.panic.lines().next().unwrap_or(""));
+            let st = std::process::Command::new(self_exe()).arg(tier).env("VERIF_C17_NO_CRASH", "1").status();
+            return st.ok().and_then(|s| s.code()).unwrap_or(2);
+        }
         if oracle_of(&f.panic) == "harness-limit-thread-local" {
             eprintln!("HARNESS-ERROR: the code under test keeps state in std thread-local storage on the cache path; shuttle runs all simulated threads on one OS thread, so their thread-locals alias ({}). This is a limit of the simulation, not a reported violation; the sequential engine still runs.", f.panic.lines().next().unwrap_or(""));
             return 3;
